@@ -179,17 +179,19 @@ Proof.
   destruct (expired _ _ _ _); reflexivity.
 Qed.
 
-Lemma device_poll_imp cfg s auth dev : implicit (st (fst (device_poll cfg s auth dev))) = implicit (st s).
+Lemma device_poll_imp cfg s auth dev : imp_sub (st s) (st (fst (device_poll cfg s auth dev))).
 Proof.
   unfold device_poll.
-  destruct auth as [c|]; [|reflexivity]. destruct (clients s c) as [cl|]; [|reflexivity].
-  destruct (negb (args_has (cl_grants cl) _)); [reflexivity|].
-  destruct (key_of s dev) as [k|]; [|reflexivity].
-  destruct (device (st s) k) as [[stt r]|]; [|reflexivity].
-  repeat match goal with |- context [if ?c then fail s _ else _] => destruct c; [reflexivity|] end.
+  destruct auth as [c|]; [|apply imp_sub_refl]. destruct (clients s c) as [cl|]; [|apply imp_sub_refl].
+  destruct (negb (args_has (cl_grants cl) _)); [apply imp_sub_refl|].
+  destruct (key_of s dev) as [k|]; [|apply imp_sub_refl].
+  destruct (used_device cfg (st s) k) as [rid|].
+  { cbn [fst fail st set_store]. eapply imp_sub_trans; [apply revoke_access_imp|]. apply imp_sub_eq. apply revoke_refresh_imp. }
+  destruct (device (st s) k) as [[stt r]|]; [|apply imp_sub_refl].
+  repeat match goal with |- context [if ?c then fail s _ else _] => destruct c; [apply imp_sub_refl|] end.
   match goal with |- context [grant_tokens ?s2 ?stored ?w] =>
     pose proof (grant_tokens_imp s2 stored w) as G; destruct (grant_tokens s2 stored w) as [s3 minted] end.
-  cbn [fst] in *. rewrite G. reflexivity.
+  cbn [fst] in *. apply imp_sub_eq. rewrite G. reflexivity.
 Qed.
 
 Theorem imp_keeps_step cfg s o : imp_keeps s (fst (step cfg s o)).
@@ -210,7 +212,7 @@ Proof.
     rewrite authorize_core_imp. reflexivity.
   - apply imp_keeps_eq, device_authorize_imp.
   - apply imp_keeps_eq, decide_imp.
-  - apply imp_keeps_eq, device_poll_imp.
+  - apply imp_keeps_sub, device_poll_imp.
 Qed.
 
 (* ------------------------------------------------------------------ dead families, authorization-endpoint tokens included *)
